@@ -36,7 +36,8 @@ structure Inv (c : Cfg) (s : St) : Prop where
   tmpA : ∀ p i j, (s.procs p).status = .running → (s.procs p).pc = .append i j →
       s.files (.tmp p i) = some ⟨i, List.replicate j true⟩ ∧ j < c.chunks
   /-- a process about to rename owns a complete temp file -/
-  tmpR : ∀ p i, (s.procs p).status = .running → (s.procs p).pc = .rename i → s.files (.tmp p i) = some (full c i)
+  tmpR : ∀ p i, (s.procs p).status = .running → ((s.procs p).pc = .close i ∨ (s.procs p).pc = .rename i) →
+      s.files (.tmp p i) = some (full c i)
   /-- whatever a loader obtained is the bundled content of the version it asked for -/
   got : ∀ p ct, (s.procs p).got = some (some ct) → ct = full c (ver (s.procs p).kind)
   /-- a loader that has seen its file in a listing will find it -/
@@ -49,40 +50,40 @@ structure Inv (c : Cfg) (s : St) : Prop where
   /-- a finished loader has read some content (never "not found") -/
   fin : ∀ p v, (s.procs p).kind = .load v → (s.procs p).status = .finished → ∃ ct, (s.procs p).got = some (some ct)
 
-theorem init_procs (ps : List (Kind × Nat)) (p : Nat) :
-    (init ps).procs p = idle ∨ ∃ k now, (init ps).procs p = start k now := by
+theorem init_procs (ps : List (Kind × Nat × Nat)) (p : Nat) :
+    (init ps).procs p = idle ∨ ∃ k now a, (init ps).procs p = start k now a := by
   simp only [init]
   split
-  · right; exact ⟨_, _, rfl⟩
+  · right; exact ⟨_, _, _, rfl⟩
   · left; rfl
 
-theorem inv_init (c : Cfg) (ps : List (Kind × Nat)) : Inv c (init ps) := by
+theorem inv_init (c : Cfg) (ps : List (Kind × Nat × Nat)) : Inv c (init ps) := by
   constructor
   · intro f ct h; simp [init] at h
   · intro p h
-    rcases init_procs ps p with h' | ⟨k, now, h'⟩ <;> rw [h'] at h
+    rcases init_procs ps p with h' | ⟨k, now, a, h'⟩ <;> rw [h'] at h
     · simp [idle, Proc.inRegion] at h
     · cases k <;> simp [start, startPc, Proc.inRegion, Pc.locked] at h
   · intro p i j h1 h2
-    rcases init_procs ps p with h' | ⟨k, now, h'⟩ <;> rw [h'] at h1 h2
+    rcases init_procs ps p with h' | ⟨k, now, a, h'⟩ <;> rw [h'] at h1 h2
     · simp [idle] at h1
     · cases k <;> simp [start, startPc] at h2
   · intro p i h1 h2
-    rcases init_procs ps p with h' | ⟨k, now, h'⟩ <;> rw [h'] at h1 h2
+    rcases init_procs ps p with h' | ⟨k, now, a, h'⟩ <;> rw [h'] at h1 h2
     · simp [idle] at h1
     · cases k <;> simp [start, startPc] at h2
   · intro p ct h
-    rcases init_procs ps p with h' | ⟨k, now, h'⟩ <;> rw [h'] at h <;> simp [idle, start] at h
+    rcases init_procs ps p with h' | ⟨k, now, a, h'⟩ <;> rw [h'] at h <;> simp [idle, start] at h
   · intro p v hk h1 h2
-    rcases init_procs ps p with h' | ⟨k, now, h'⟩ <;> rw [h'] at hk h1 h2
+    rcases init_procs ps p with h' | ⟨k, now, a, h'⟩ <;> rw [h'] at hk h1 h2
     · simp [idle] at h1
     · cases k <;> simp_all [start, startPc]
   · intro p h1 h2
-    rcases init_procs ps p with h' | ⟨k, now, h'⟩ <;> rw [h'] at h1 h2 ⊢
+    rcases init_procs ps p with h' | ⟨k, now, a, h'⟩ <;> rw [h'] at h1 h2 ⊢
     · simp [idle] at h1
     · cases k <;> simp_all [start, startPc]
   · intro p v h1 h2
-    rcases init_procs ps p with h' | ⟨k, now, h'⟩ <;> rw [h'] at h1 h2 <;> simp [idle, start] at h1 h2
+    rcases init_procs ps p with h' | ⟨k, now, a, h'⟩ <;> rw [h'] at h1 h2 <;> simp [idle, start] at h1 h2
 
 theorem inv_crash (c : Cfg) (p : Nat) (s : St) (h : Inv c s) : Inv c (crash p s) := by
   obtain ⟨h1, h2, h3, h4, h5, h6, h7, h8⟩ := h
@@ -103,7 +104,8 @@ theorem inv_frame (c : Cfg) (p : Nat) (s s' : St) (pr' : Proc) (h : Inv c s)
     (hl : pr'.inRegion = true → s'.holder = some p)
     (hA : ∀ i j, pr'.status = .running → pr'.pc = .append i j →
       s'.files (.tmp p i) = some ⟨i, List.replicate j true⟩ ∧ j < c.chunks)
-    (hR : ∀ i, pr'.status = .running → pr'.pc = .rename i → s'.files (.tmp p i) = some (full c i))
+    (hR : ∀ i, pr'.status = .running → (pr'.pc = .close i ∨ pr'.pc = .rename i) →
+      s'.files (.tmp p i) = some (full c i))
     (hG : ∀ ct, pr'.got = some (some ct) → ct = full c (ver pr'.kind))
     (hS : ∀ v, pr'.kind = .load v → pr'.status = .running → pr'.pc = .read →
       (s'.files (.final (ver pr'.kind))).isSome = true)
@@ -147,7 +149,8 @@ theorem inv_local (c : Cfg) (p : Nat) (s : St) (pr' : Proc) (h : Inv c s)
     (hl : pr'.inRegion = true → s.holder = some p)
     (hA : ∀ i j, pr'.status = .running → pr'.pc = .append i j →
       s.files (.tmp p i) = some ⟨i, List.replicate j true⟩ ∧ j < c.chunks)
-    (hR : ∀ i, pr'.status = .running → pr'.pc = .rename i → s.files (.tmp p i) = some (full c i))
+    (hR : ∀ i, pr'.status = .running → (pr'.pc = .close i ∨ pr'.pc = .rename i) →
+      s.files (.tmp p i) = some (full c i))
     (hG : ∀ ct, pr'.got = some (some ct) → ct = full c (ver pr'.kind))
     (hS : ∀ v, pr'.kind = .load v → pr'.status = .running → pr'.pc = .read →
       (s.files (.final (ver pr'.kind))).isSome = true)
@@ -161,8 +164,22 @@ theorem inv_local (c : Cfg) (p : Nat) (s : St) (pr' : Proc) (h : Inv c s)
 @[simp] theorem target_safe (k : Kind) (p i : Nat) : target .safe k p i = .tmp p i := by
   cases k <;> rfl
 
-@[simp] theorem afterCopy_safe (c : Cfg) (k : Kind) (i : Nat) : afterCopy c .safe k i = .rename i := by
+@[simp] theorem afterCopy_safe (c : Cfg) (k : Kind) (i : Nat) : afterCopy c .safe k i = .close i := by
   cases k <;> rfl
+
+@[simp] theorem afterRename_safe (c : Cfg) (k : Kind) (i : Nat) :
+    afterRename c .safe k i = loopPc c k (i + 1) := rfl
+
+@[simp] theorem heldBy_safe (s : St) (pr : Proc) : heldBy .safe s pr = s.holder := rfl
+
+@[simp] theorem takeLock_safe (p : Nat) (s : St) (pr : Proc) :
+    takeLock .safe p s pr = { s with holder := some p } := rfl
+
+@[simp] theorem dropLock_safe (p : Nat) (s : St) (pr : Proc) :
+    dropLock .safe p s pr = { s with holder := if s.holder = some p then none else s.holder } := rfl
+
+@[simp] theorem seen_safe (s : St) (v : Nat) : seen .safe s v = (s.files (.final v)).isSome := by
+  simp [seen]
 
 theorem loopPc_cases (c : Cfg) (k : Kind) (i : Nat) :
     loopPc c k i = .pick i ∨ loopPc c k i = .truncTs ∨ loopPc c k i = .unlock := by
@@ -186,6 +203,8 @@ theorem loopPc_ne (c : Cfg) (k : Kind) (i : Nat) (pc : Pc)
 @[simp] theorem loopPc_append (c : Cfg) (k : Kind) (i a b : Nat) : (loopPc c k i = .append a b) = False :=
   eq_false (loopPc_ne c k i _ (by simp) (by simp) (by simp))
 @[simp] theorem loopPc_rename (c : Cfg) (k : Kind) (i a : Nat) : (loopPc c k i = .rename a) = False :=
+  eq_false (loopPc_ne c k i _ (by simp) (by simp) (by simp))
+@[simp] theorem loopPc_close (c : Cfg) (k : Kind) (i a : Nat) : (loopPc c k i = .close a) = False :=
   eq_false (loopPc_ne c k i _ (by simp) (by simp) (by simp))
 @[simp] theorem loopPc_create (c : Cfg) (k : Kind) (i a : Nat) : (loopPc c k i = .create a) = False :=
   eq_false (loopPc_ne c k i _ (by simp) (by simp) (by simp))
@@ -282,13 +301,19 @@ theorem inv_stepPc (c : Cfg) (p : Nat) (s : St) (h : Inv c s) (hr : (s.procs p).
     obtain ⟨hA, hj⟩ := h.tmpA p i j hr hpc
     by_cases hc : j + 1 < c.chunks <;>
     refine inv_frame c p s _ _ h rfl ?_ ?_ ?_ ?_ ?_ ?_ ?_ ?_ ?_ ?_ ?_ <;>
-      simp_all [St.setP, upd, Proc.inRegion, Pc.locked, full, writeChunk_replicate] <;>
+      simp_all [St.setP, upd, writeTo, Proc.inRegion, Pc.locked, full, writeChunk_replicate] <;>
       first | assumption | omega | grind
+  next i hpc => -- close
+    have hlk : s.holder = some p := h.lock p (by simp [Proc.inRegion, hr, hpc, Pc.locked])
+    have hR := h.tmpR p i hr (Or.inl hpc)
+    simp only []
+    apply inv_local c p s _ h <;> simp_all [Proc.inRegion, Pc.locked]
   next i hpc => -- rename
     have hlk : s.holder = some p := h.lock p (by simp [Proc.inRegion, hr, hpc, Pc.locked])
     have ht := h.torn
-    have hR := h.tmpR p i hr hpc
+    have hR := h.tmpR p i hr (Or.inr hpc)
     rw [hR]
+    simp only [afterRename_safe]
     rcases loopPc_cases c (s.procs p).kind (i + 1) with e | e | e <;>
     refine inv_frame c p s _ _ h rfl ?_ ?_ ?_ ?_ ?_ ?_ ?_ ?_ ?_ ?_ ?_ <;>
       simp_all [St.setP, upd, Proc.inRegion, Pc.locked] <;> first | assumption | grind
@@ -327,7 +352,7 @@ theorem inv_run (c : Cfg) (sched : List Action) (s : St) (h : Inv c s) : Inv c (
 
 /-- the invariant holds in every state reachable from the empty cache directory, for any set of
 processes, any interleaving and any crashes -/
-theorem reach_inv (c : Cfg) (ps : List (Kind × Nat)) (sched : List Action) :
+theorem reach_inv (c : Cfg) (ps : List (Kind × Nat × Nat)) (sched : List Action) :
     Inv c (runSt c .safe sched (init ps)) :=
   inv_run c sched _ (inv_init c ps)
 
@@ -335,13 +360,13 @@ theorem reach_inv (c : Cfg) (ps : List (Kind × Nat)) (sched : List Action) :
 
 /-- **no_torn**: in every reachable state of every schedule (any processes, interleaving, crash points),
 every file whose name matches the cache pattern is complete and equal to the bundled file. -/
-theorem no_torn (c : Cfg) (ps : List (Kind × Nat)) (sched : List Action) (f : Nat) (ct : Content)
+theorem no_torn (c : Cfg) (ps : List (Kind × Nat × Nat)) (sched : List Action) (f : Nat) (ct : Content)
     (h : (runSt c .safe sched (init ps)).files (.final f) = some ct) : ct = full c f :=
   (reach_inv c ps sched).torn f ct h
 
 /-- **load_ok**: every `load v` that runs to completion, in any schedule, returns the bundled content of `v`
 (never "not found", never a partial file). -/
-theorem load_ok (c : Cfg) (ps : List (Kind × Nat)) (sched : List Action) (p v : Nat)
+theorem load_ok (c : Cfg) (ps : List (Kind × Nat × Nat)) (sched : List Action) (p v : Nat)
     (hk : ((runSt c .safe sched (init ps)).procs p).kind = .load v)
     (hf : ((runSt c .safe sched (init ps)).procs p).status = .finished) :
     ((runSt c .safe sched (init ps)).procs p).got = some (some (full c v)) := by
@@ -350,7 +375,7 @@ theorem load_ok (c : Cfg) (ps : List (Kind × Nat)) (sched : List Action) (p v :
   rw [hg, hi.got p ct hg, hk]; rfl
 
 /-- **mutex**: no reachable state has two processes inside the locked region. -/
-theorem mutex (c : Cfg) (ps : List (Kind × Nat)) (sched : List Action) (p q : Nat) (hne : p ≠ q) :
+theorem mutex (c : Cfg) (ps : List (Kind × Nat × Nat)) (sched : List Action) (p q : Nat) (hne : p ≠ q) :
     ¬ (((runSt c .safe sched (init ps)).procs p).inRegion = true ∧
        ((runSt c .safe sched (init ps)).procs q).inRegion = true) := by
   intro ⟨hp, hq⟩
@@ -361,7 +386,7 @@ theorem mutex (c : Cfg) (ps : List (Kind × Nat)) (sched : List Action) (p q : N
   exact hne (Option.some.inj h2)
 
 /-- the executable overlap test of the driver never fires on `Cache.safe` -/
-theorem mutex_overlapUpTo (c : Cfg) (ps : List (Kind × Nat)) (sched : List Action) (n : Nat) :
+theorem mutex_overlapUpTo (c : Cfg) (ps : List (Kind × Nat × Nat)) (sched : List Action) (n : Nat) :
     overlapUpTo n (runSt c .safe sched (init ps)) = false := by
   cases h : overlapUpTo n (runSt c .safe sched (init ps)) with
   | false => rfl
@@ -463,20 +488,20 @@ theorem inv2_local (p : Nat) (s : St) (pr' : Proc) (h : Inv2 s)
   inv2_frame p s (s.setP p pr') pr' h rfl hk hn (fun hd => ⟨hd, rfl, rfl, rfl, rfl⟩) (fun _ h => Or.inl h)
     (fun h => h) hw hD hL
 
-theorem inv2_init (ps : List (Kind × Nat)) : Inv2 (init ps) := by
+theorem inv2_init (ps : List (Kind × Nat × Nat)) : Inv2 (init ps) := by
   constructor
   · intro _; simp [init]
   · intro p h1 h2
-    rcases init_procs ps p with h' | ⟨k, now, h'⟩ <;> rw [h'] at h1 h2
+    rcases init_procs ps p with h' | ⟨k, now, a, h'⟩ <;> rw [h'] at h1 h2
     · simp [idle] at h1
     · cases k <;> simp [start, startPc] at h2
   · intro t h; simp [init] at h
   · intro p m hk hc
-    rcases init_procs ps p with h' | ⟨k, now, h'⟩ <;> rw [h'] at hk hc
+    rcases init_procs ps p with h' | ⟨k, now, a, h'⟩ <;> rw [h'] at hk hc
     · simp [idle] at hk
     · cases k <;> simp [start, startPc] at hk hc
   · intro p h1 h2
-    rcases init_procs ps p with h' | ⟨k, now, h'⟩ <;> rw [h'] at h1 h2 ⊢
+    rcases init_procs ps p with h' | ⟨k, now, a, h'⟩ <;> rw [h'] at h1 h2 ⊢
     · simp [idle] at h1
     · cases k <;> simp [start, startPc] at h2 ⊢
 
@@ -546,13 +571,18 @@ theorem inv2_stepPc (c : Cfg) (p : Nat) (s : St) (h : Inv2 s) (hr : (s.procs p).
   next i j hpc => -- append
     have hdirt := h.dirty
     by_cases hc : j + 1 < c.chunks <;>
-    refine inv2_frame p s _ _ h rfl rfl rfl ?_ (fun _ h => Or.inl h) (fun h => h) ?_ ?_ ?_ <;> simp_all [St.setP] <;>
+    refine inv2_frame p s _ _ h rfl rfl rfl ?_ (fun _ h => Or.inl h) (fun h => h) ?_ ?_ ?_ <;>
+    simp_all [St.setP, writeTo] <;>
     first
       | (intro hd; funext n; have := (hdirt hd).1; simp_all [upd]; done)
       | grind
+  next i hpc => -- close
+    simp only []
+    apply inv2_local p s _ h <;> simp_all
   next i hpc => -- rename
     have hdirt := h.dirty
     have e1 := loopPc_truncTs c (s.procs p).kind (i + 1)
+    simp only [afterRename_safe]
     split
     · next ct hct =>
       rcases loopPc_cases c (s.procs p).kind (i + 1) with e | e | e <;>
@@ -578,7 +608,7 @@ theorem inv2_act (c : Cfg) (a : Action) (s : St) (h : Inv2 s) : Inv2 (act c .saf
     · exact h
   | crash p => exact inv2_crash p s h
 
-theorem reach_inv2 (c : Cfg) (ps : List (Kind × Nat)) (sched : List Action) :
+theorem reach_inv2 (c : Cfg) (ps : List (Kind × Nat × Nat)) (sched : List Action) :
     Inv2 (runSt c .safe sched (init ps)) := by
   suffices ∀ s, Inv2 s → Inv2 (runSt c .safe sched s) from this _ (inv2_init ps)
   induction sched with
@@ -586,7 +616,7 @@ theorem reach_inv2 (c : Cfg) (ps : List (Kind × Nat)) (sched : List Action) :
   | cons a as ih => intro s h; exact ih _ (inv2_act c a s h)
 
 /-- the `dirty` flag of the model is a sound reading of "the directory listing is empty" -/
-theorem dirty_sound (c : Cfg) (ps : List (Kind × Nat)) (sched : List Action)
+theorem dirty_sound (c : Cfg) (ps : List (Kind × Nat × Nat)) (sched : List Action)
     (h : (runSt c .safe sched (init ps)).dirty = false) :
     (∀ n, (runSt c .safe sched (init ps)).files n = none) ∧
       (runSt c .safe sched (init ps)).lockFile = false ∧ (runSt c .safe sched (init ps)).ts = none ∧
@@ -638,7 +668,7 @@ theorem refresh_skipped (c : Cfg) (p t : Nat) (s : St)
 
 /-- loop index of a control state inside the copy loop -/
 def idx : Pc → Option Nat
-  | .pick i | .mktemp i | .create i | .append i _ | .rename i => some i
+  | .pick i | .mktemp i | .create i | .append i _ | .close i | .rename i => some i
   | _ => none
 
 /-- control states after the copy loop, still inside the locked region -/
@@ -694,18 +724,18 @@ theorem inv3_local (c : Cfg) (p : Nat) (s : St) (pr' : Proc) (h : Inv3 c s)
       pr'.pc = .unlock ∧ present s (total c pr'.kind)) : Inv3 c (s.setP p pr') :=
   inv3_frame c p s (s.setP p pr') pr' h rfl (fun _ hf => hf) hL hT hD
 
-theorem inv3_init (c : Cfg) (ps : List (Kind × Nat)) : Inv3 c (init ps) := by
+theorem inv3_init (c : Cfg) (ps : List (Kind × Nat × Nat)) : Inv3 c (init ps) := by
   constructor
   · intro p i h1 h2
-    rcases init_procs ps p with h' | ⟨k, now, h'⟩ <;> rw [h'] at h1 h2
+    rcases init_procs ps p with h' | ⟨k, now, a, h'⟩ <;> rw [h'] at h1 h2
     · simp [idle] at h1
     · cases k <;> simp [start, startPc, idx] at h2
   · intro p h1 h2
-    rcases init_procs ps p with h' | ⟨k, now, h'⟩ <;> rw [h'] at h1 h2
+    rcases init_procs ps p with h' | ⟨k, now, a, h'⟩ <;> rw [h'] at h1 h2
     · simp [idle] at h1
     · cases k <;> simp [start, startPc, isTail] at h2
   · intro p h1
-    rcases init_procs ps p with h' | ⟨k, now, h'⟩ <;> rw [h'] at h1 <;> simp [idle, start] at h1
+    rcases init_procs ps p with h' | ⟨k, now, a, h'⟩ <;> rw [h'] at h1 <;> simp [idle, start] at h1
 
 theorem inv3_crash (c : Cfg) (p : Nat) (s : St) (h : Inv3 c s) : Inv3 c (crash p s) := by
   unfold crash
@@ -792,9 +822,14 @@ theorem inv3_stepPc (c : Cfg) (p : Nat) (s : St) (hI : Inv c s) (h : Inv3 c s)
     have hi : present s i := h.loop p i hr (by simp [hpc, idx])
     by_cases hc : j + 1 < c.chunks <;>
     refine inv3_frame c p s _ _ h rfl ?_ ?_ ?_ ?_ <;>
-      simp_all [St.setP, upd, idx, isTail, present] <;> first | assumption | grind
+      simp_all [St.setP, upd, writeTo, idx, isTail, present] <;> first | assumption | grind
+  next i hpc => -- close
+    have hi : present s i := h.loop p i hr (by simp [hpc, idx])
+    simp only []
+    apply inv3_local c p s _ h <;> simp_all [idx, isTail] <;> first | assumption | grind [present]
   next i hpc => -- rename
     have hi : present s i := h.loop p i hr (by simp [hpc, idx])
+    simp only [afterRename_safe]
     split
     · next ct hct =>
       refine inv3_next c p s _ (s.procs p) (i + 1) h hr rfl ?_ ?_
@@ -804,7 +839,7 @@ theorem inv3_stepPc (c : Cfg) (p : Nat) (s : St) (hI : Inv c s) (h : Inv3 c s)
         · simp [upd, e]
         · have := hi f (by omega); simp [upd, e]; exact this
     · next hnone =>
-      have := hI.tmpR p i hr hpc
+      have := hI.tmpR p i hr (Or.inr hpc)
       rw [hnone] at this; simp at this
   next hpc => -- truncTs
     have ht := h.tail p hr (by simp [hpc, isTail])
@@ -816,7 +851,7 @@ theorem inv3_stepPc (c : Cfg) (p : Nat) (s : St) (hI : Inv c s) (h : Inv3 c s)
     have ht := h.tail p hr (by simp [hpc, isTail])
     exact inv3_leave c p s _ (s.procs p) h (fun _ => ⟨hpc, ht⟩)
 
-theorem reach_inv3 (c : Cfg) (ps : List (Kind × Nat)) (sched : List Action) :
+theorem reach_inv3 (c : Cfg) (ps : List (Kind × Nat × Nat)) (sched : List Action) :
     Inv3 c (runSt c .safe sched (init ps)) := by
   suffices ∀ s, Inv c s → Inv3 c s → Inv3 c (runSt c .safe sched s) from this _ (inv_init c ps) (inv3_init c ps)
   induction sched with
@@ -836,7 +871,7 @@ theorem reach_inv3 (c : Cfg) (ps : List (Kind × Nat)) (sched : List Action) :
 starts now and whose clock is within the threshold of every refresher's clock is skipped: it ends at once
 with `tooRecent`, having made no file-system step other than reading the timestamp — provided nobody is in the
 middle of rewriting the timestamp file (or died there: a truncated timestamp reads as "never refreshed"). -/
-theorem refresh_skipped_after_completed (c : Cfg) (ps : List (Kind × Nat)) (sched : List Action)
+theorem refresh_skipped_after_completed (c : Cfg) (ps : List (Kind × Nat × Nat)) (sched : List Action)
     (p q m mp : Nat)
     (hq : ((runSt c .safe sched (init ps)).procs q).kind = .refresh m)
     (hqf : ((runSt c .safe sched (init ps)).procs q).status = .finished)
@@ -869,7 +904,7 @@ theorem refresh_skipped_after_completed (c : Cfg) (ps : List (Kind × Nat)) (sch
 /-- **populate_complete** ("a finished population leaves byte-identical copies"): when `cache_local_versions`
 has returned normally (no CacheException branch), every bundled file is in the cache, complete and equal to
 the bundled file — in any schedule, whoever copied it. -/
-theorem populate_complete (c : Cfg) (ps : List (Kind × Nat)) (sched : List Action) (p f : Nat)
+theorem populate_complete (c : Cfg) (ps : List (Kind × Nat × Nat)) (sched : List Action) (p f : Nat)
     (hk : ((runSt c .safe sched (init ps)).procs p).kind = .populate)
     (hf : ((runSt c .safe sched (init ps)).procs p).status = .finished)
     (he : ((runSt c .safe sched (init ps)).procs p).err = none) (hlt : f < c.nFiles) :
@@ -880,7 +915,7 @@ theorem populate_complete (c : Cfg) (ps : List (Kind × Nat)) (sched : List Acti
   rw [hct, (reach_inv c ps sched).torn f ct hct]
 
 /-- **refresh_complete**: a refresh of files `0 … m-1` that returned normally leaves each of them complete. -/
-theorem refresh_complete (c : Cfg) (ps : List (Kind × Nat)) (sched : List Action) (p m f : Nat)
+theorem refresh_complete (c : Cfg) (ps : List (Kind × Nat × Nat)) (sched : List Action) (p m f : Nat)
     (hk : ((runSt c .safe sched (init ps)).procs p).kind = .refresh m)
     (hf : ((runSt c .safe sched (init ps)).procs p).status = .finished)
     (he : ((runSt c .safe sched (init ps)).procs p).err = none) (hlt : f < m) :
@@ -893,17 +928,17 @@ theorem refresh_complete (c : Cfg) (ps : List (Kind × Nat)) (sched : List Actio
 /-- **refresh_no_torn**: the download path (sha check, copy of the downloaded file to a temp name in the cache
 folder, `os.replace`) never puts a partial file under a cache name — also for versions that are not bundled
 (`f ≥ nFiles`) — and what a refresh is about to rename into place is a complete file. -/
-theorem refresh_no_torn (c : Cfg) (ps : List (Kind × Nat)) (sched : List Action) :
+theorem refresh_no_torn (c : Cfg) (ps : List (Kind × Nat × Nat)) (sched : List Action) :
     (∀ f ct, (runSt c .safe sched (init ps)).files (.final f) = some ct → ct = full c f) ∧
     (∀ p m i, ((runSt c .safe sched (init ps)).procs p).kind = .refresh m →
       ((runSt c .safe sched (init ps)).procs p).status = .running →
       ((runSt c .safe sched (init ps)).procs p).pc = .rename i →
       (runSt c .safe sched (init ps)).files (.tmp p i) = some (full c i)) :=
-  ⟨(reach_inv c ps sched).torn, fun p _ i _ hr hpc => (reach_inv c ps sched).tmpR p i hr hpc⟩
+  ⟨(reach_inv c ps sched).torn, fun p _ i _ hr hpc => (reach_inv c ps sched).tmpR p i hr (Or.inr hpc)⟩
 
 /-- **peek_no_torn**: a direct read of a cache file (`get_library_data` opening `library_data.json`) never
 obtains a partial file: whatever content it got is the bundled content. -/
-theorem peek_no_torn (c : Cfg) (ps : List (Kind × Nat)) (sched : List Action) (p v : Nat) (ct : Content)
+theorem peek_no_torn (c : Cfg) (ps : List (Kind × Nat × Nat)) (sched : List Action) (p v : Nat) (ct : Content)
     (hk : ((runSt c .safe sched (init ps)).procs p).kind = .peek v)
     (hg : ((runSt c .safe sched (init ps)).procs p).got = some (some ct)) : ct = full c v := by
   rw [(reach_inv c ps sched).got p ct hg, hk]; rfl
@@ -918,17 +953,17 @@ under the final name which a later complete populate keeps (`exists` → skip) a
 (c) a load concurrent with a populate reads the half-copied file. -/
 theorem current_counterexamples :
     -- (a)
-    (let s := runSt cfg1 .current [.step 0, .step 1] (init [(.populate, 5000), (.populate, 5000)])
+    (let s := runSt cfg1 .current [.step 0, .step 1] (init [(.populate, 5000, 0), (.populate, 5000, 0)])
      (s.procs 0).inRegion && (s.procs 1).inRegion) = true ∧
     -- (b)
     (let s := runSt cfg1 .current
         [.step 0, .step 0, .step 0, .step 0, .crash 0, .step 1, .step 1, .step 1, .step 2, .step 2]
-        (init [(.populate, 5000), (.populate, 5000), (.load 0, 5000)])
+        (init [(.populate, 5000, 0), (.populate, 5000, 0), (.load 0, 5000, 0)])
      s.files (.final 0) = some ⟨0, [true]⟩ ∧ (s.procs 1).status = .finished ∧ (s.procs 1).err = none ∧
        (s.procs 2).status = .finished ∧ (s.procs 2).got = some (some ⟨0, [true]⟩)) ∧
     -- (c)
     (let s := runSt cfg1 .current [.step 0, .step 0, .step 0, .step 0, .step 1, .step 1, .step 0, .step 0]
-        (init [(.populate, 5000), (.load 0, 5000)])
+        (init [(.populate, 5000, 0), (.load 0, 5000, 0)])
      (s.procs 1).got = some (some ⟨0, [true]⟩) ∧ (s.procs 0).status = .finished ∧
        s.files (.final 0) = some (full cfg1 0)) := by
   decide
@@ -938,8 +973,8 @@ that has listed the empty directory, then a refresh that is killed between trunc
 `last_update.txt`; the loader's `CacheLock.__enter__` raises `ValueError` and the load fails. -/
 theorem current_timestamp_counterexample :
     (let s := runSt cfg1 .current
-        [.step 0, .step 1, .step 1, .step 1, .step 1, .step 1, .step 1, .step 1, .crash 1, .step 0]
-        (init [(.load 0, 5000), (.refresh 1, 5000)])
+        [.step 0, .step 1, .step 1, .step 1, .step 1, .step 1, .step 1, .step 1, .step 1, .crash 1, .step 0]
+        (init [(.load 0, 5000, 0), (.refresh 1, 5000, 0)])
      s.tsTorn = true ∧ (s.procs 0).status = .finished ∧ (s.procs 0).err = some .tsUnreadable ∧
        (s.procs 0).got = none) := by
   decide
@@ -947,36 +982,158 @@ theorem current_timestamp_counterexample :
 /-- the unrepaired in-place copy also serves a torn `library_data.json` to a direct reader -/
 theorem current_direct_read_counterexample :
     (let s := runSt cfg1 .current [.step 0, .step 0, .step 0, .step 0, .crash 0, .step 1]
-        (init [(.populate, 5000), (.peek 0, 5000)])
+        (init [(.populate, 5000, 0), (.peek 0, 5000, 0)])
      (s.procs 1).status = .finished ∧ (s.procs 1).got = some (some ⟨0, [true]⟩)) := by
   decide
+
+/-! ### lock identity, write protocol, listing filter (mechanisms of the later seeded changes) -/
+
+/-- **lock_excludes_per_directory**: the processes of a system address the one directory under arbitrary path
+aliases (third component of their descriptors: real path, symlinks, …).  Because the lock file lives inside the
+directory it is one inode under every alias, and no two processes are ever inside the locked region of the
+same directory, whatever aliases they use. -/
+theorem lock_excludes_per_directory (c : Cfg) (ps : List (Kind × Nat × Nat)) (sched : List Action) (p q : Nat)
+    (hne : p ≠ q) :
+    ¬ (((runSt c .safe sched (init ps)).procs p).inRegion = true ∧
+       ((runSt c .safe sched (init ps)).procs q).inRegion = true) :=
+  mutex c ps sched p q hne
+
+/-- a lock file named after the path string does not exclude two aliases of one directory -/
+theorem pathlock_counterexample :
+    (let s := runSt cfg1 .pathlock [.step 0, .step 0, .step 0, .step 1, .step 1, .step 1]
+        (init [(.populate, 5000, 0), (.populate, 5000, 1)])
+     (s.procs 0).inRegion && (s.procs 1).inRegion) = true ∧
+    -- (with one spelling it does exclude: the variant differs from `safe` only under aliasing)
+    (let s := runSt cfg1 .pathlock [.step 0, .step 0, .step 0, .step 1, .step 1, .step 1]
+        (init [(.populate, 5000, 7), (.populate, 5000, 7)])
+     (s.procs 0).inRegion && (s.procs 1).inRegion) = false := by
+  decide
+
+/-- the copy is "write the chunks; close; rename" -/
+theorem copy_order (c : Cfg) (k : Kind) (i : Nat) (p : Nat) (s : St) (hr : (s.procs p).status = .running)
+    (hpc : (s.procs p).pc = .close i) :
+    afterCopy c .safe k i = .close i ∧ ((step c .safe p s).procs p).pc = .rename i ∧
+      (step c .safe p s).files = s.files := by
+  refine ⟨afterCopy_safe c k i, ?_, ?_⟩ <;> simp [step, hr, stepPc, hpc]
+
+/-- **rename_only_after_complete**: in every reachable state, a process about to rename a temp file into place
+holds the complete source content in it (all chunks written, descriptor closed), so the file that becomes
+visible under the final name is complete at the instant of the rename — at every crash point and for every
+concurrent reader (`no_torn` is the same fact for all later states). -/
+theorem rename_only_after_complete (c : Cfg) (ps : List (Kind × Nat × Nat)) (sched : List Action) (p i : Nat)
+    (hr : ((runSt c .safe sched (init ps)).procs p).status = .running)
+    (hpc : ((runSt c .safe sched (init ps)).procs p).pc = .rename i) :
+    (runSt c .safe sched (init ps)).files (.tmp p i) = some (full c i) ∧
+      (step c .safe p (runSt c .safe sched (init ps))).files (.final i) = some (full c i) := by
+  have hR := (reach_inv c ps sched).tmpR p i hr (Or.inr hpc)
+  refine ⟨hR, ?_⟩
+  simp [step, hr, stepPc, hpc, hR, upd]
+
+/-- the buffered-tail variant (rename inside the `with` block, before the writer is closed): a kill right
+after the rename leaves a file without its tail under the final name, and a later load is served it; a
+concurrent load in that window reads it too, although the populate then completes the file. -/
+theorem buffered_tail_counterexample :
+    (let s := runSt cfg1 .buffered (List.replicate 9 (.step 0) ++ [.crash 0, .step 1, .step 1])
+        (init [(.populate, 5000, 0), (.load 0, 5000, 0)])
+     s.files (.final 0) = some ⟨0, [true]⟩ ∧ (s.procs 1).got = some (some ⟨0, [true]⟩)) ∧
+    (let s := runSt cfg1 .buffered (List.replicate 9 (.step 0) ++ [.step 1, .step 1, .step 0, .step 0])
+        (init [(.populate, 5000, 0), (.load 0, 5000, 0)])
+     s.files (.final 0) = some (full cfg1 0) ∧ (s.procs 0).status = .finished ∧
+       (s.procs 1).got = some (some ⟨0, [true]⟩)) := by
+  decide
+
+/-- **listed_versions_are_final_files**: the listing filter of the repaired code counts a version only when
+its final name exists (a temporary or partial name is never listed as a version), and a loader that has seen
+its version in a listing will read a complete file. -/
+theorem listed_versions_are_final_files (c : Cfg) (ps : List (Kind × Nat × Nat)) (sched : List Action) :
+    (∀ v, seen .safe (runSt c .safe sched (init ps)) v = true →
+      (runSt c .safe sched (init ps)).files (.final v) = some (full c v)) ∧
+    (∀ p v, ((runSt c .safe sched (init ps)).procs p).kind = .load v →
+      ((runSt c .safe sched (init ps)).procs p).status = .running →
+      ((runSt c .safe sched (init ps)).procs p).pc = .read →
+      (runSt c .safe sched (init ps)).files (.final v) = some (full c v)) := by
+  have hi := reach_inv c ps sched
+  constructor
+  · intro v hv
+    rw [seen_safe] at hv
+    obtain ⟨ct, hct⟩ := Option.isSome_iff_exists.mp hv
+    rw [hct, hi.torn v ct hct]
+  · intro p v hk hr hpc
+    have := hi.saw p v hk hr hpc
+    rw [hk] at this
+    obtain ⟨ct, hct⟩ := Option.isSome_iff_exists.mp this
+    have hct' : (runSt c .safe sched (init ps)).files (.final v) = some ct := hct
+    rw [hct', hi.torn v ct hct']
+
+/-- without the anchors the temp name of a copy in progress is listed as the version; the loader looks for a
+final file that is not there and ends "not found" (the real code then goes to the network) -/
+theorem unanchored_counterexample :
+    (let s := runSt cfg1 .unanchored [.step 0, .step 0, .step 0, .step 0, .step 0, .step 1, .step 1]
+        (init [(.populate, 5000, 0), (.load 0, 5000, 0)])
+     s.files (.final 0) = none ∧ (s.procs 1).saw = true ∧ (s.procs 1).status = .finished ∧
+       (s.procs 1).got = some none) := by
+  decide
+
+theorem runSt_append (c : Cfg) (proto : Proto) (a b : List Action) (s : St) :
+    runSt c proto (a ++ b) s = runSt c proto b (runSt c proto a s) := by
+  induction a generalizing s with
+  | nil => rfl
+  | cons x xs ih => simp [runSt, ih]
+
+/-- **load_uses_cache_or_bundled**: take any reachable state of the cache directory (left by any earlier
+history `pre` of any processes, with any crashes) and continue in any way (`post`): every load of a bundled
+version that completes returns bytes equal to the bundled file — read from the cache if the version was
+listed (then the cache file is complete), from the installed copy otherwise. -/
+theorem load_uses_cache_or_bundled (c : Cfg) (ps : List (Kind × Nat × Nat)) (pre post : List Action) (p v : Nat)
+    (hk : ((runSt c .safe post (runSt c .safe pre (init ps))).procs p).kind = .load v)
+    (hf : ((runSt c .safe post (runSt c .safe pre (init ps))).procs p).status = .finished) :
+    ((runSt c .safe post (runSt c .safe pre (init ps))).procs p).got = some (some (full c v)) := by
+  rw [← runSt_append] at hk hf ⊢
+  exact load_ok c ps (pre ++ post) p v hk hf
+
+/-- outside the interval `CacheLock.__enter__` goes on to the lock (the threshold test is exact) -/
+theorem refresh_not_skipped_outside (c : Cfg) (p : Nat) (s : St)
+    (hr : (s.procs p).status = .running) (hpc : (s.procs p).pc = .readTs)
+    (hnow : s.ts.getD 0 + c.thr ≤ (s.procs p).now) :
+    step c .safe p s = s.setP p { s.procs p with pc := .openLock } := by
+  have : ¬ (s.procs p).now < s.ts.getD 0 + c.thr := by omega
+  simp [step, hr, stepPc, hpc, this]
+
+/-- `_check_if_url`: exactly the two scheme prefixes; an absolute file path is never taken for a URL, so the
+path of a cache (or bundled) file always goes to the file loader -/
+theorem checkIfUrl_spec (s : List Char) :
+    checkIfUrl s = true ↔ "http://".toList.isPrefixOf s = true ∨ "https://".toList.isPrefixOf s = true := by
+  simp [checkIfUrl]
+
+theorem checkIfUrl_abs (t : List Char) : checkIfUrl ('/' :: t) = false := by
+  simp [checkIfUrl, List.isPrefixOf]
 
 /-! ### non-vacuity: the hypotheses of the theorems are satisfiable, and the same schedules are harmless
 under `Cache.safe` -/
 
 /-- the primitives of an undisturbed populate, in order (the "list of primitive steps" of the process) -/
-example : (run cfg1 .safe 1 (List.replicate 11 (.step 0)) (init [(.populate, 5000)])).1.map (·.what) =
-    ["readTs", "openLock", "tryLock", "exists", "mktemp", "create", "append", "append", "rename", "unlock",
+example : (run cfg1 .safe 1 (List.replicate 12 (.step 0)) (init [(.populate, 5000, 0)])).1.map (·.what) =
+    ["readTs", "openLock", "tryLock", "exists", "mktemp", "create", "append", "append", "close", "rename", "unlock",
      "idle"] := by decide
 
 /-- the primitives of an undisturbed refresh of one file (sha check, download to temp, replace, timestamp) -/
-example : (run cfg1 .safe 1 (List.replicate 11 (.step 0)) (init [(.refresh 1, 5000)])).1.map (·.what) =
-    ["readTs", "openLock", "tryLock", "read", "create", "append", "append", "rename", "truncTs", "writeTs",
+example : (run cfg1 .safe 1 (List.replicate 12 (.step 0)) (init [(.refresh 1, 5000, 0)])).1.map (·.what) =
+    ["readTs", "openLock", "tryLock", "read", "create", "append", "append", "close", "rename", "truncTs", "writeTs",
      "unlock"] := by decide
 
 /-- the torn-timestamp schedule under the repaired protocol: the truncated file reads as 0, the loader
 populates the cache itself and gets the bundled content -/
 example :
     (let s := runSt cfg1 .safe
-        ([.step 0] ++ List.replicate 9 (.step 1) ++ [.crash 1] ++ List.replicate 7 (.step 0))
-        (init [(.load 0, 5000), (.refresh 1, 5000)])
+        ([.step 0] ++ List.replicate 10 (.step 1) ++ [.crash 1] ++ List.replicate 7 (.step 0))
+        (init [(.load 0, 5000, 0), (.refresh 1, 5000, 0)])
      s.tsTorn = true ∧ (s.procs 0).status = .finished ∧ (s.procs 0).err = none ∧
        (s.procs 0).got = some (some (full cfg1 0))) := by decide
 
 /-- a direct reader: nothing there before the population, the complete file after it -/
 example :
-    (let s := runSt cfg1 .safe ([.step 1] ++ List.replicate 10 (.step 0) ++ [.step 2])
-        (init [(.populate, 5000), (.peek 0, 5000), (.peek 0, 5000)])
+    (let s := runSt cfg1 .safe ([.step 1] ++ List.replicate 11 (.step 0) ++ [.step 2])
+        (init [(.populate, 5000, 0), (.peek 0, 5000, 0), (.peek 0, 5000, 0)])
      (s.procs 1).got = some none ∧ (s.procs 2).got = some (some (full cfg1 0)) ∧
        (s.procs 0).status = .finished ∧ (s.procs 0).err = none) := by decide
 
@@ -984,9 +1141,9 @@ example :
 completes the cache, the loader gets the bundled content -/
 example :
     (let s := runSt cfg1 .safe
-        ([.step 0, .step 0, .step 0, .step 0, .step 0, .step 0, .step 0, .crash 0] ++ List.replicate 10 (.step 1) ++
+        ([.step 0, .step 0, .step 0, .step 0, .step 0, .step 0, .step 0, .crash 0] ++ List.replicate 11 (.step 1) ++
           [.step 2, .step 2])
-        (init [(.populate, 5000), (.populate, 5000), (.load 0, 5000)])
+        (init [(.populate, 5000, 0), (.populate, 5000, 0), (.load 0, 5000, 0)])
      s.files (.final 0) = some (full cfg1 0) ∧ s.files (.tmp 0 0) = some ⟨0, [true]⟩ ∧
        (s.procs 2).kind = .load 0 ∧ (s.procs 2).status = .finished ∧
        (s.procs 2).got = some (some (full cfg1 0))) := by decide
@@ -994,21 +1151,21 @@ example :
 /-- a loader arriving in the middle of a populate is served the bundled file (not in the listing yet) -/
 example :
     (let s := runSt cfg1 .safe [.step 0, .step 0, .step 0, .step 0, .step 0, .step 0, .step 0, .step 1]
-        (init [(.populate, 5000), (.load 0, 5000)])
+        (init [(.populate, 5000, 0), (.load 0, 5000, 0)])
      s.files (.final 0) = none ∧ (s.procs 1).status = .finished ∧ (s.procs 1).got = some (some (full cfg1 0))) := by
   decide
 
 /-- the lock-timeout branch is reachable: the second populate burns its five attempts and gives up -/
 example :
     (let s := runSt cfg1 .safe ([.step 0, .step 0, .step 0] ++ List.replicate 7 (.step 1))
-        (init [(.populate, 5000), (.populate, 5000)])
+        (init [(.populate, 5000, 0), (.populate, 5000, 0)])
      (s.procs 0).inRegion = true ∧ (s.procs 1).status = .finished ∧ (s.procs 1).err = some .lockTimeout ∧
        s.holder = some 0) := by decide
 
 /-- the hypotheses of `refresh_skipped_after_completed` are satisfiable: refresh 0 completes at clock 5000,
 refresh 1 starts at 5100 -/
 example :
-    (let s := runSt cfg1 .safe (List.replicate 11 (.step 0)) (init [(.refresh 1, 5000), (.refresh 1, 5100)])
+    (let s := runSt cfg1 .safe (List.replicate 12 (.step 0)) (init [(.refresh 1, 5000, 0), (.refresh 1, 5100, 0)])
      (s.procs 0).status = .finished ∧ (s.procs 0).err = none ∧ s.ts = some 5000 ∧ s.tsTorn = false ∧
        (s.procs 1).status = .running ∧ (s.procs 1).pc = .readTs ∧
        ((step cfg1 .safe 1 s).procs 1).err = some .tooRecent ∧ ((step cfg1 .safe 1 s).procs 1).status = .finished) := by
